@@ -2,6 +2,7 @@
 # Must-fail / must-pass corpus for the verifier itself.
 #   selftest/mutants/<PROP>-<name>.patch : property-breaking edits of /repo; the check for PROP must report a VIOLATION
 #   selftest/benign/<PROP>-<name>.patch  : harmless edits; the check for PROP must stay silent
+#   selftest/benign_agents/<PROP>-pN.patch : harmless edits written by independent sub-agents (NOTES per property)
 # Each patch is applied to a scratch copy outside /repo and /verif, removed afterwards.
 # usage: selftest/run.sh [PROP]      (all properties when omitted)
 set -u
@@ -35,6 +36,6 @@ run_one() { # patch expect(1|0)
   rm -rf "$scratch"
 }
 for p in selftest/mutants/*.patch; do [ -e "$p" ] && run_one "$p" 1; done
-for p in selftest/benign/*.patch; do [ -e "$p" ] && run_one "$p" 0; done
+for p in selftest/benign/*.patch selftest/benign_agents/*.patch; do [ -e "$p" ] && run_one "$p" 0; done
 echo "selftest: $n patches run, $( [ $fail = 0 ] && echo all as expected || echo SOME NOT AS EXPECTED )"
 exit $fail
